@@ -599,6 +599,17 @@ def r6(ctx):
         ctx.violation("parse_cond/not-applied", ctx.where(PARSE_COND), "negate_expr_op is not applied under `if <parity flag>`")
     # the negation applies to the finished condition: a bare boolean column / function is first expanded to `.. = true`
     # (negate_expr_op does nothing on a node without an operator), so every expansion site precedes the negation
+    import interp
+    try:
+        n_ev, problems = shorthand_by_evaluation(ctx)
+        ctx.covered("parse_cond evaluated on bare columns / values x phase flags x 0..2 prefix NOTs (shorthand window, NOT after expansion)", n_ev, exhaustive=True)
+        ctx.obligation(not problems)
+        if problems:
+            ctx.violation("parse_cond/not-before-shorthand", ctx.where(PARSE_COND),
+                          "a bare boolean column stands for `column = true` exactly inside WHERE and a prefix NOT complements that comparison: %s" % "; ".join(problems[:3]))
+        return
+    except interp.Undecided as e:
+        ctx.covered("evaluation of the shorthand scenarios gave up (%s); the structural rule applies" % str(e)[:160], 0)
     order = list(walk_exprs(hir))
     sites = [i for i, c in enumerate(order) if c["k"] == "Call" and str(c.get("callee", "")).endswith("Expr::op") and len(c["args"]) == 3 and
              "Op::Eq" in render(c["args"][1]) and any(y["k"] == "Lit" and y.get("v") == "true" and y.get("lk") == "str" for y in walk_exprs(c["args"][2]))]
@@ -689,7 +700,32 @@ NOT_DECIDED = [
 ]
 
 
-def eval_parse_cond(ctx, lex, where_phase=True):
+def shorthand_by_evaluation(ctx):
+    """parse_cond evaluated on a bare boolean column, a bare non-boolean column and a bare value, under the four valuations of
+    the phase flags and behind 0..2 prefix NOTs: the boolean column becomes `column = true` exactly inside WHERE (roots parsed,
+    WHERE not yet parsed), nothing else is expanded, and a prefix NOT complements the *expanded* comparison (`not is_dir` is
+    `is_dir != true`).  -> (scenarios, problems); raises interp.Undecided"""
+    import interp
+    V = interp.V
+    W, NOT = (lambda t: V("Lexem::RawString", [t])), V("Lexem::Not")
+    problems, n = [], 0
+    for rp in (False, True):
+        for wp in (False, True):
+            window = rp and not wp
+            for word, leaf, boolean in (("is_dir", "col:IsDir", True), ("size", "col:Size", False), ("x", "x", False)):
+                for k in (0, 1, 2):
+                    expanded = window and boolean
+                    if k % 2 and not expanded:
+                        continue        # what NOT does to a bare non-boolean leaf is not fixed by the property
+                    g, idx = eval_parse_cond(ctx, [NOT] * k + [W(word)], roots_parsed=rp, where_parsed=wp)
+                    n += 1
+                    want = (("Ne" if k % 2 else "Eq"), leaf, "true") if expanded else leaf
+                    if g != want or idx != k + 1:
+                        problems.append("`%s%s` with roots_parsed = %s, where_parsed = %s is parsed as %s (cursor %d), expected %s" % ("not " * k, word, rp, wp, g, idx, want))
+    return n, problems
+
+
+def eval_parse_cond(ctx, lex, where_phase=True, roots_parsed=True, where_parsed=None):
     """parse_cond evaluated (finite interpreter) on a lexem list: the operand level parse_add_sub is a stand-in that takes one
     word; Expr::op / logical_op, Op::from_with_not, Op::negate and negate_expr_op are read from the source.
     -> (shape of the condition built | "err", cursor).  Raises interp.Undecided."""
@@ -712,8 +748,12 @@ def eval_parse_cond(ctx, lex, where_phase=True):
             return (lo.name.split("::")[-1], shape(e.get("left")), shape(e.get("right")))
         if op is not None:
             return (op.name.split("::")[-1], shape(e.get("left")), shape(e.get("right")))
+        fld = unsome(e.get("field"))
+        if fld is not None:
+            return "col:" + fld.name.split("::")[-1]
         return unsome(e.get("val"))
-    selfv = interp.LazySelf({"lexems": list(lex), "index": 0, "roots_parsed": True, "where_parsed": not where_phase})
+    COLS = {"is_dir": "IsDir", "size": "Size"}
+    selfv = interp.LazySelf({"lexems": list(lex), "index": 0, "roots_parsed": roots_parsed, "where_parsed": (not where_phase) if where_parsed is None else where_parsed})
 
     def call(node, recv, args, it, env):
         m_ = node.get("m")
@@ -722,7 +762,10 @@ def eval_parse_cond(ctx, lex, where_phase=True):
             i = selfv["index"]
             if i < len(selfv["lexems"]) and selfv["lexems"][i].name in ("Lexem::RawString", "Lexem::String"):
                 selfv["index"] = i + 1
-                return (V("Result::Ok", [interp.some(_expr_dict(interp, val=interp.some(selfv["lexems"][i].args[0])))]),)
+                w_ = selfv["lexems"][i].args[0]
+                if w_ in COLS and selfv["lexems"][i].name == "Lexem::RawString":
+                    return (V("Result::Ok", [interp.some(_expr_dict(interp, field=interp.some(V("Field::" + COLS[w_]))))]),)
+                return (V("Result::Ok", [interp.some(_expr_dict(interp, val=interp.some(w_)))]),)
             return (V("Result::Err", ["Error parsing expression"]),)
         if m_ in ("clone", "to_owned") and isinstance(recv, (dict, V)):
             import copy
